@@ -19,7 +19,7 @@ func init() {
 		Technique: "must-held lock sets (guarded-by p.mu) over every Pipe field access incl. dereferences of the *error handed to closeWithError, condition-variable rules (Wait inside a cycle that re-tests every predicate, Signal on every path after a predicate change, Locker initialised before use), guard/dominance rules for the order of the three tests in Pipe.Read, error forwarding of PipeBuffer.Write, nil-buffer guards, cursor/copy agreement in FixedBuffer incl. the slide copy, forward value slices of guarded-field reads against paths from Cond.Wait (stale snapshot), pool hand-back discipline (reset, no use after Put, reference cleared), census of Release callers",
 		Meta: core.Meta{
 			Level:       "other",
-			Explanation: "Decides: (a) every access of Pipe.b/err/breakErr/donec/readFn/c.L in package pipe (including `*dst` inside closeWithError, whose callers pass &p.err / &p.breakErr) happens with p.mu held, closeDoneLocked is only called with p.mu held, objects under construction exempt; (b) Cond.Wait is called with the lock held, inside a cycle on which the breakErr test, the buffered-data test and the err test all lie, and no return is reachable from Wait without re-testing breakErr; c.L is set to &p.mu before any Wait/Signal; every function that writes err/breakErr (via dst) or writes into the buffer signals the condition on every path to its exit; (c) in Pipe.Read the buffered data is returned only when breakErr is nil, p.err is returned only when breakErr is nil and the buffer is nil or empty, the break return yields (0, breakErr), the data return forwards PipeBuffer.Read, Wait is reached only with err == nil, breakErr == nil and no data; Err() prefers breakErr; (d) Pipe.Write writes only when err == nil and b != nil, forwards both results of PipeBuffer.Write unchanged, every other return is (0, non-nil error); FixedBuffer.Write reports errWriteFull unless copy took all of p; (e) every method call on p.b outside Release is guarded by p.b != nil; every caller of Pipe.Release closes the pipe (CloseWithError/BreakWithError on the same pipe) first; closeWithError stores only a non-nil error, only over nil or io.EOF, and CloseWithError/BreakWithError target err/breakErr respectively; donec is closed only in closeDoneLocked under a nil check; (f) FixedBuffer.Read/Write advance r/w by exactly the copy count, copy from buf[r:w] / into buf[w:], return that count, Len is w-r, and r is reset to 0 only together with w (w = 0 or w -= r).; (g) every slide (w -= r together with r = 0) is preceded by a copy within buf whose source is buf[r:] / buf[r:w] and whose destination starts at buf[0] and is not capped (no upper bound, or len(buf), w, w-r); (h) in every function that gives up p.mu in the middle (Cond.Wait, explicit Unlock), no value computed from a read of b/err/breakErr/readFn/donec is used on a path coming from that point without the field being read again (no stale snapshot of the buffer or of the close state across Wait); (i) a buffer put into a sync.Pool was Reset() before, Pipe.b is set to nil on every path after the Put and nothing touches the buffer between Put and that store. Not covered: when a slide is triggered (the `r > 0 && len(p) > free` condition only affects whether a fitting write is refused), exactly-once delivery over histories, a second Release on the same pipe (p.b is nil then and Release dereferences it — callers are checked to release once per close path only by dominance, not by history), fairness of Signal (one waiter assumed).",
+			Explanation: "Decides: (a) every access of Pipe.b/err/breakErr/donec/readFn/c.L in package pipe (including `*dst` inside closeWithError, whose callers pass &p.err / &p.breakErr) happens with p.mu held, closeDoneLocked is only called with p.mu held, objects under construction exempt; (b) Cond.Wait is called with the lock held, inside a cycle on which the breakErr test, the buffered-data test and the err test all lie, and no return is reachable from Wait without re-testing breakErr; c.L is set to &p.mu before any Wait/Signal; every function that writes err/breakErr (via dst) or writes into the buffer signals the condition on every path to its exit; (c) in Pipe.Read the buffered data is returned only when breakErr is nil, p.err is returned only when breakErr is nil and the buffer is nil or empty, the break return yields (0, breakErr), the data return forwards PipeBuffer.Read, Wait is reached only with err == nil, breakErr == nil and no data; Err() prefers breakErr; (d) Pipe.Write writes only when err == nil and b != nil, forwards both results of PipeBuffer.Write unchanged, every other return is (0, non-nil error); FixedBuffer.Write reports errWriteFull unless copy took all of p; (e) every method call on p.b outside Release is guarded by p.b != nil; every caller of Pipe.Release closes the pipe (CloseWithError/BreakWithError on the same pipe) first; closeWithError stores only a non-nil error, only over nil or io.EOF, and CloseWithError/BreakWithError target err/breakErr respectively; donec is closed only in closeDoneLocked under a nil check; (f) FixedBuffer.Read/Write advance r/w by exactly the copy count, copy from buf[r:w] / into buf[w:], return that count, Len is w-r, and r is reset to 0 only together with w (w = 0 or w -= r).; (g) every slide (w -= r together with r = 0) is preceded by a copy within buf whose source is buf[r:] / buf[r:w] and whose destination starts at buf[0] and is not capped (no upper bound, or len(buf), w, w-r); (h) forward dataflow per function and guarded field: at a point where p.mu is given up and taken again (Cond.Wait, an Unlock from which a Lock is reachable, a call of a package function that does so) every value computed so far from a read of b/err/breakErr/readFn/donec becomes stale, it is fresh again once the field was read again on the path (phis take the state of the edge they are entered over), and no instruction may use a stale value (no stale snapshot of the buffer or of the close state across Wait); after a final explicit Unlock (no Lock reachable) a snapshot taken under the lock may be compared and returned — exactly what a deferred Unlock allows — but not acted through (no call on or with it, no store to shared memory, no send); (i) a buffer put into a sync.Pool was Reset() before, Pipe.b is set to nil on every path after the Put and nothing touches the buffer between Put and that store. Refactoring-robust reading: returns are classified through private helper methods called on the same pipe (a helper all of whose returns yield p.err counts as p.err), named results assigned before the return are followed to the store that reaches the return on every path, conditions evaluated into a value (tagless switch case `a && b`, named booleans) are read through their phi in both polarities (conjunction when true, disjunction when false), the c.L initialisation is recognised in either spelling and inside a helper called first. Not covered: when a slide is triggered (the `r > 0 && len(p) > free` condition only affects whether a fitting write is refused), exactly-once delivery over histories, a second Release on the same pipe (p.b is nil then and Release dereferences it — callers are checked to release once per close path only by dominance, not by history), fairness of Signal (one waiter assumed).",
 			RuleText:    "obligations = each (function, Pipe field) access set, each Wait/Signal site, each return of Pipe.Read/Write/Err, each store through closeWithError's dst, each buffer method call, each Release call site in the module, the cursor updates and slides of FixedBuffer, each (function with a Wait, guarded field) pair, each sync.Pool.Put of the pipe buffer",
 			Assumptions: []string{"at most one goroutine waits in Pipe.Read per pipe (Signal, not Broadcast)", "sync.Mutex/sync.Cond semantics"},
 		},
@@ -50,6 +50,12 @@ func init() {
 			{Name: "read-caches-buffer-length-before-wait", File: "bfe_util/pipe/pipe.go", Old: "	for {\n		if p.breakErr != nil {\n			return 0, p.breakErr\n		}\n		if p.b != nil && p.b.Len() > 0 {\n			return p.b.Read(d)\n		}\n", New: "	pending := p.b != nil && p.b.Len() > 0\n	for {\n		if p.breakErr != nil {\n			return 0, p.breakErr\n		}\n		if p.b != nil && (pending || p.b.Len() > 0) {\n			return p.b.Read(d)\n		}\n", Expect: "fresh-after-wait|Pipe.Read:b"},
 			{Name: "release-resets-after-put", File: "bfe_util/pipe/pipe.go", Old: "	p.b.Reset()\n	pool.Put(p.b)\n	p.b = nil", New: "	pool.Put(p.b)\n	p.b.Reset()\n	p.b = nil", Expect: "pool-release|Pipe.Release:put#1:no-use-after-put"},
 			{Name: "release-keeps-buffer-reference", File: "bfe_util/pipe/pipe.go", Old: "	p.b.Reset()\n	pool.Put(p.b)\n	p.b = nil", New: "	p.b.Reset()\n	pool.Put(p.b)", Expect: "pool-release|Pipe.Release:put#1:cleared"},
+			{Name: "silent-read-close-helper", File: "bfe_util/pipe/pipe.go", Old: "		if p.err != nil {\n			if p.readFn != nil {\n				p.readFn()     // e.g. copy trailers\n				p.readFn = nil // not sticky like p.err\n			}\n			return 0, p.err\n		}\n		p.c.Wait()\n	}\n}\n", New: "		if p.err != nil {\n			return 0, p.drainedLocked()\n		}\n		p.c.Wait()\n	}\n}\n\nfunc (p *Pipe) drainedLocked() error {\n	if p.readFn != nil {\n		p.readFn()\n		p.readFn = nil\n	}\n	return p.err\n}\n", Silent: true},
+			{Name: "silent-read-tagless-switch", File: "bfe_util/pipe/pipe.go", Old: "		if p.breakErr != nil {\n			return 0, p.breakErr\n		}\n		if p.b != nil && p.b.Len() > 0 {\n			return p.b.Read(d)\n		}\n		if p.err != nil {\n			if p.readFn != nil {\n				p.readFn()     // e.g. copy trailers\n				p.readFn = nil // not sticky like p.err\n			}\n			return 0, p.err\n		}\n		p.c.Wait()\n	}\n}\n", New: "		switch {\n		case p.breakErr != nil:\n			return 0, p.breakErr\n		case p.b != nil && p.b.Len() > 0:\n			return p.b.Read(d)\n		case p.err != nil:\n			if p.readFn != nil {\n				p.readFn()\n				p.readFn = nil\n			}\n			return 0, p.err\n		default:\n			p.c.Wait()\n		}\n	}\n}\n", Silent: true},
+			{Name: "silent-err-snapshot-explicit-unlock", File: "bfe_util/pipe/pipe.go", Old: "func (p *Pipe) Err() error {\n	p.mu.Lock()\n	defer p.mu.Unlock()\n	if p.breakErr != nil {\n		return p.breakErr\n	}\n	return p.err\n}", New: "func (p *Pipe) Err() error {\n	p.mu.Lock()\n	first, second := p.breakErr, p.err\n	p.mu.Unlock()\n	if first != nil {\n		return first\n	}\n	return second\n}", Silent: true},
+			{Name: "write-acts-on-snapshot-after-unlock", File: "bfe_util/pipe/pipe.go", Old: "func (p *Pipe) Write(d []byte) (n int, err error) {\n	p.mu.Lock()\n	defer p.mu.Unlock()\n	if p.c.L == nil {\n		p.c.L = &p.mu\n	}\n	defer p.c.Signal()\n	if p.err != nil {\n		return 0, errClosedPipeWrite\n	}\n	if p.b == nil {\n		return 0, errClosedPipeWrite\n	}\n	return p.b.Write(d)\n}", New: "func (p *Pipe) Write(d []byte) (n int, err error) {\n	p.mu.Lock()\n	if p.c.L == nil {\n		p.c.L = &p.mu\n	}\n	defer p.c.Signal()\n	buf, closed := p.b, p.err != nil\n	p.mu.Unlock()\n	if closed || buf == nil {\n		return 0, errClosedPipeWrite\n	}\n	return buf.Write(d)\n}", Expect: "fresh-after-wait|Pipe.Write:b"},
+			{Name: "silent-write-named-results-then-return", File: "bfe_util/pipe/pipe.go", Old: "	return p.b.Write(d)\n}", New: "	n, err = p.b.Write(d)\n	if n > 0 {\n		_ = n\n	}\n	return n, err\n}", Silent: true},
+			{Name: "silent-close-switch-on-dst", File: "bfe_util/pipe/pipe.go", Old: "	if *dst != nil {\n		// Note: Here we do not consider the existing io.EOF(i.e. *dst) as a real error\n		// and replace it if necessary. The error handling policy allows us to release\n		// underlying resource(eg. PipeBuffer) as soon as possible.\n		if *dst == io.EOF {\n			*dst = err\n		}\n		// Already been done.\n		return\n	}\n	p.readFn = fn\n	*dst = err\n	p.closeDoneLocked()\n}", New: "	switch *dst {\n	case nil:\n		p.readFn = fn\n		*dst = err\n		p.closeDoneLocked()\n	case io.EOF:\n		*dst = err\n	default:\n	}\n}", Silent: true},
 			{Name: "silent-buffer-local-inside-loop", File: "bfe_util/pipe/pipe.go", Old: "		if p.b != nil && p.b.Len() > 0 {\n			return p.b.Read(d)\n		}\n		if p.err != nil {", New: "		buf := p.b\n		if buf != nil && buf.Len() > 0 {\n			return buf.Read(d)\n		}\n		if p.err != nil {", Silent: true},
 			{Name: "silent-slide-explicit-bounds", File: "bfe_util/pipe/fixed_buffer.go", Old: "		copy(b.buf, b.buf[b.r:b.w])\n", New: "		unread := b.buf[b.r:b.w]\n		copy(b.buf[0:], unread)\n", Silent: true},
 			{Name: "silent-locker-helper", File: "bfe_util/pipe/pipe.go", Old: "\tif p.c.L == nil {\n\t\tp.c.L = &p.mu\n\t}\n\tfor {\n\t\tif p.breakErr != nil {\n\t\t\treturn 0, p.breakErr\n\t\t}\n\t\tif p.b != nil && p.b.Len() > 0 {\n\t\t\treturn p.b.Read(d)\n\t\t}\n\t\tif p.err != nil {\n\t\t\tif p.readFn != nil {\n\t\t\t\tp.readFn()     // e.g. copy trailers\n\t\t\t\tp.readFn = nil // not sticky like p.err\n\t\t\t}\n\t\t\treturn 0, p.err\n\t\t}\n\t\tp.c.Wait()\n\t}\n}\n", New: "\tp.initCond()\n\tfor {\n\t\tif p.breakErr != nil {\n\t\t\treturn 0, p.breakErr\n\t\t}\n\t\tif p.b != nil && p.b.Len() > 0 {\n\t\t\treturn p.b.Read(d)\n\t\t}\n\t\tif p.err != nil {\n\t\t\tif p.readFn != nil {\n\t\t\t\tp.readFn()     // e.g. copy trailers\n\t\t\t\tp.readFn = nil // not sticky like p.err\n\t\t\t}\n\t\t\treturn 0, p.err\n\t\t}\n\t\tp.c.Wait()\n\t}\n}\n\nfunc (p *Pipe) initCond() {\n\tif p.c.L == nil {\n\t\tp.c.L = &p.mu\n\t}\n}\n", Silent: true},
@@ -391,8 +397,10 @@ func runC21(c *core.Ctx) {
 	c.Min("wait-loop", 5)
 	// Locker initialised before Wait/Signal
 	// lockerInit: the `if p.c.L == nil { p.c.L = &p.mu }` test of fn, if it has one
-	lockerInit := func(fn *ssa.Function) *ssa.If {
-		var initIf *ssa.If
+	// (the instruction after which c.L is set on every path: the branch that
+	// tests c.L == nil in either spelling, or an unconditional store)
+	lockerInit := func(fn *ssa.Function) ssa.Instruction {
+		var init ssa.Instruction
 		for _, in := range uuInstrs(fn) {
 			st, ok := in.(*ssa.Store)
 			if !ok {
@@ -408,15 +416,28 @@ func runC21(c *core.Ctx) {
 			if f, _ := uuFieldAddr(uuResolve(st.Val)); f != muF {
 				continue
 			}
-			if preds := st.Block().Preds; len(preds) == 1 {
-				if ifi, ok := preds[0].Instrs[len(preds[0].Instrs)-1].(*ssa.If); ok && preds[0].Succs[0] == st.Block() {
-					if r, ok := uuRelOf(ifi.Cond, true); ok && r.Op == token.EQL && uuIsNil(r.Y) {
-						initIf = ifi
+			init = st
+			for _, g := range uuGuardsAt(st.Block()) {
+				r, isRel := uuRelOf(g.Cond, g.Pol)
+				if !isRel || g.If == nil || r.Op != token.EQL {
+					continue
+				}
+				x := r.X
+				if uuIsNil(r.X) {
+					x = r.Y
+				} else if !uuIsNil(r.Y) {
+					continue
+				}
+				if u, isU := uuResolve(x).(*ssa.UnOp); isU && u.Op == token.MUL {
+					if la, isFA := u.X.(*ssa.FieldAddr); isFA && c21FieldName(la) == "L" {
+						if f, _ := uuFieldAddr(la.X); f == cF {
+							init = g.If
+						}
 					}
 				}
 			}
 		}
-		return initIf
+		return init
 	}
 	for _, fn := range pkgFns {
 		var uses []ssa.Instruction
@@ -430,8 +451,8 @@ func runC21(c *core.Ctx) {
 		}
 		// either in this function, or in a helper method called on the same pipe before the uses
 		var inits []ssa.Instruction
-		if ifi := lockerInit(fn); ifi != nil {
-			inits = append(inits, ifi)
+		if ini := lockerInit(fn); ini != nil {
+			inits = append(inits, ini)
 		}
 		for _, call := range core.AllCalls(fn) {
 			sc := call.Common().StaticCallee()
@@ -529,11 +550,12 @@ func runC21(c *core.Ctx) {
 			n++
 			b := r.Block()
 			zero := func() bool { k, ok := uuConstInt(rv[0]); return ok && k == 0 }
+			recv := ssa.Value(readFn.Params[0])
 			switch {
-			case isLoadOf(rv[1], brkF):
+			case uuFieldLoadVia(rv[1], brkF, recv, 0):
 				ok := uuHasRel(b, nilRel(brkF, false)) && zero()
 				c.Check("read-order", "Pipe.Read:break-return", r.Pos(), ok, "the return of breakErr must be (0, p.breakErr) under p.breakErr != nil")
-			case isLoadOf(rv[1], errF):
+			case uuFieldLoadVia(rv[1], errF, recv, 0):
 				noBreak := uuHasRel(b, nilRel(brkF, true))
 				empty := uuDomEdgesRel(b, emptyRel)
 				closed := uuHasRel(b, nilRel(errF, false))
@@ -586,11 +608,12 @@ func runC21(c *core.Ctx) {
 			if len(rv) != 1 {
 				continue
 			}
+			recv := ssa.Value(errFn.Params[0])
 			switch {
-			case isLoadOf(rv[0], brkF):
+			case uuFieldLoadVia(rv[0], brkF, recv, 0):
 				nE++
 				c.Check("err-order", "Pipe.Err:break", r.Pos(), true, "")
-			case isLoadOf(rv[0], errF):
+			case uuFieldLoadVia(rv[0], errF, recv, 0):
 				nE++
 				c.Check("err-order", "Pipe.Err:close", r.Pos(), uuHasRel(r.Block(), nilRel(brkF, true)), "Pipe.Err returns p.err although breakErr == nil is not established: the break error takes precedence")
 			default:
@@ -677,7 +700,7 @@ func runC21(c *core.Ctx) {
 					for j, e := range phi.Edges {
 						pred := phi.Block().Preds[j]
 						check(e, func(match func(uuRel) bool) bool {
-							for _, g := range core.GuardsOnEdge(pred, phi.Block()) {
+							for _, g := range uuGuardsOnEdge(pred, phi.Block()) {
 								if rel, isRel := uuRelOf(g.Cond, g.Pol); isRel && match(rel) {
 									return true
 								}
@@ -961,40 +984,64 @@ func runC21(c *core.Ctx) {
 
 	// ------------------------------------------------------------ (g) no stale snapshot across Wait, pool discipline
 	// points where p.mu is given up in the middle of a function: Cond.Wait, an
-	// explicit (not deferred) Unlock, and calls of package functions that do so
-	releasing := map[*ssa.Function]bool{}
-	isRelease := func(in ssa.Instruction) bool {
+	// explicit (not deferred) Unlock, and calls of package functions that do so.
+	// 1 = the lock is taken again afterwards (Wait; an Unlock from which a Lock
+	// of p.mu is reachable), 2 = it is given up for good.
+	isMuCall := func(in ssa.Instruction, name string) bool {
 		call, ok := in.(*ssa.Call)
-		if !ok {
+		if !ok || !core.CallIs(&call.Call, "sync.Mutex."+name) || len(call.Call.Args) != 1 {
 			return false
 		}
+		f, _ := uuFieldAddr(call.Call.Args[0])
+		return f == muF
+	}
+	relKind := map[*ssa.Function]int{} // strongest release kind inside a package function
+	var classify func(in ssa.Instruction) int
+	classify = func(in ssa.Instruction) int {
+		call, ok := in.(*ssa.Call)
+		if !ok {
+			return 0
+		}
 		if condCall(in, "Wait") {
-			return true
+			return 1
 		}
-		if core.CallIs(&call.Call, "sync.Mutex.Unlock") && len(call.Call.Args) == 1 {
-			f, _ := uuFieldAddr(call.Call.Args[0])
-			return f == muF
+		unlocks := isMuCall(in, "Unlock")
+		if sc := call.Call.StaticCallee(); sc != nil && relKind[sc] != 0 {
+			if relKind[sc] == 1 {
+				return 1
+			}
+			unlocks = true
 		}
-		if sc := call.Call.StaticCallee(); sc != nil && releasing[sc] {
-			return true
+		if !unlocks {
+			return 0
 		}
-		return false
+		relock := core.ReachAvoiding(in.Parent(), in, nil, func(x ssa.Instruction) bool {
+			if isMuCall(x, "Lock") {
+				return true
+			}
+			if c2, isCall := x.(*ssa.Call); isCall {
+				if sc := c2.Call.StaticCallee(); sc != nil && core.FuncPkgRel(sc) == c21pkg && sc.Blocks != nil {
+					return core.MayPass(sc, func(y ssa.Instruction) bool { return isMuCall(y, "Lock") }, 1)
+				}
+			}
+			return false
+		})
+		if relock != nil {
+			return 1
+		}
+		return 2
 	}
 	for changed := true; changed; {
 		changed = false
 		for _, fn := range pkgFns {
-			if releasing[fn] {
-				continue
-			}
 			for _, in := range uuInstrs(fn) {
-				if isRelease(in) {
-					releasing[fn], changed = true, true
-					break
+				if k := classify(in); k != 0 && (relKind[fn] == 0 || k < relKind[fn]) {
+					relKind[fn], changed = k, true
 				}
 			}
 		}
 	}
-	c21FreshAfterWait(c, pkgFns, []*types.Var{bF, errF, brkF, fnF, doneF}, isRelease, short)
+	c21FreshAfterWait(c, pkgFns, []*types.Var{bF, errF, brkF, fnF, doneF}, classify, short)
 	c.Min("fresh-after-wait", 3)
 	c21PoolRelease(c, pkgFns, bF, short)
 	c.Min("pool-release", 3)
